@@ -57,6 +57,15 @@ CLAIMED = {
             'floats as reals; concrete fibre variants; Raman sub-claims about method agreement, orders 3-4, iterative co/counter solver '
             'and pump gain are outside the technique (no bounded exact assertion); Fiber.cr and interp1d stubbed in H5c',
             'DESIGN.md §2 C05'),
+    'C07': ('symx',
+            'bounded symbolic execution of the real spectrum construction, band filtering and amplifier dispatch code with z3; models '
+            'replayed on the float code',
+            'SpectralInformation construction (direct and create_arbitrary) with symbolic frequency/slot/baud in every supply order: '
+            'overlap or baud>slot => SpectrumError, otherwise sorted with every attribute on its own carrier (k<=3; 4 thorough); filter_si '
+            '+ Edfa/Multiband_amplifier/Edfa chain with symbolic band edges: exactly the channels inside a band of every amplifier '
+            'survive, once, in frequency order, attributes intact (all ~3.7k edge orderings).',
+            'floats as reals; amplifier physics stubbed in the chain harness; 5 fixed channel positions there',
+            'DESIGN.md §2 C07'),
     'C13': ('symx',
             'bounded symbolic execution of the real receiver / propagate / mode-selection / verdict code with z3 (dB values through an '
             'invertible 10**x abstraction, round(.,2) modelled exactly over the reals+ints); models replayed on the float code',
